@@ -83,6 +83,10 @@ Definition upd_filter (u : update) (s : sess) : bool :=
       end
   end.
 
+(* State.hasPendingExists: an exists responder for the message is still waiting to be flushed *)
+Definition pending_exists (m : msgid) (st : sstate) : bool :=
+  existsb (fun r => match r with RExists m' _ _ _ _ => m' =? m | _ => false end) (s_res st).
+
 (* responders an update pushes into session number i *)
 Definition upd_responders (u : update) (i : nat) (s : sess) (cmd_silent : bool) : list responder :=
   match u with
@@ -93,7 +97,8 @@ Definition upd_responders (u : update) (i : nat) (s : sess) (cmd_silent : bool) 
   | UExpunge _ m => [RExpunge m]
   | UFlags mb parts origin silent =>
       concat (map (fun p => match p with (ms, f, op) =>
-        map (fun m => RFetch m f op false (Nat.eqb origin i && silent && cmd_silent)
+        (* the session's own .SILENT store stays silent only if the instance it reaches has been announced already *)
+        map (fun m => RFetch m f op false (Nat.eqb origin i && silent && cmd_silent && negb (pending_exists m (ss_st s)))
                              (match ss_sel s with Some sel => negb (sel =? mb) | None => false end)) ms end) parts)
   | URemoteFlag m flag add => [RFetch m [flag] (if add then FAdd else FRem) false false false]
   end.
